@@ -120,3 +120,18 @@ reg("C11", "E3-fault-subsets",
     "snapshot unchanged; verify leaves no mismatching object.",
     "Corrupt sources only under verify (as the property quantifies). Upload failure = OSError before writing.",
     "DESIGN.md §4 C11")
+
+reg("C12", "E2-history-bfs",
+    "exhaustive enumeration of store contents x queries for status/compare_status, and explicit-state BFS over transfer/delete/status histories sharing one remote index, invariant after every operation",
+    "(a) every subset of {x,y,z,T1.dir,T2.dir} as store content x {0,8,12} '00'-prefixed fillers (both lookup "
+    "strategies of the base store are observed to run) x every non-empty query incl. an absent id x "
+    "shallow/expanded, both store classes: partition == set membership; compare_status against every source "
+    "content of <= 2 objects == combination of the two answers. (b) BFS to depth 3 (thorough 4) over 38 "
+    "operations (closed/expanded transfers in both directory orders with no / any single failing upload, "
+    "external deletion of each object, 3 status queries) sharing one ObjectDBIndex, with canonical-state "
+    "de-duplication: after every operation a directory reported existing is in the store, the indexed status "
+    "is a partition, and every id in the index was delivered in this history or is listed by a directory "
+    "object present now.",
+    "Local-file-system stores only (memory stores are assumed complete by design). Histories start from an empty "
+    "destination and index. Two trees sharing one file.",
+    "DESIGN.md §4 C12")
